@@ -134,10 +134,9 @@ read from all cells of the box, active or not.
 `_partial` because of one hypothesis:
 * `P.NoOperR` — no OPERATER keyword.  OPERATER creates its source array only when the region has
   an ACTIVE cell, so the SET of stored arrays depends on the ACTNUM and the conclusion as stated
-  here (equal stores) is false with it; the statement about *views* (stored array, or the freshly
-  initialised one when absent — which is what every reader of the store sees) is expected to
-  hold and is NOT proved.
-Full shape: view equality at `g` for every keyword, without `P.NoOperR`. -/
+  here (equal STORES) is false with it (example `opP` at the end of this file).
+The full shape — view equality at `g` for every keyword, without `P.NoOperR` — is
+`inactive_independence` below. -/
 theorem inactive_independence_partial {α : Type} [RealOps α] (D : Dims) (hD : DPos D) (T : Tables α)
     (P : Prog α) (hP : P.NoOperR) (A A' : List Bool) (hA : A.length = D.size)
     (hA' : A'.length = D.size) (t t' : St α)
